@@ -2180,12 +2180,14 @@ func writeKeeper(repo, module, typesOut, keeperOut string) {
 		funcs[key] = sig
 	}
 	// the callbacks of the list queries
+	var skeletons []string
 	for _, h := range cur.callbacks {
 		fd, ok := decls[h]
 		if !ok {
 			sb.WriteString("(* NOT FOUND " + h + " *)\n\n")
 			continue
 		}
+		skeletons = append(skeletons, fmt.Sprintf("(%s, %s)", q(h), q(skeletonDigest(fd))))
 		cb, why := callbackDecl(fd)
 		if cb == nil {
 			sb.WriteString("(* NOT TRANSLATED callback of " + h + ": " + why + " *)\n\n")
@@ -2270,6 +2272,11 @@ func writeKeeper(repo, module, typesOut, keeperOut string) {
 		printer.Fprint(&buf, token.NewFileSet(), &cp)
 		sum := sha256.Sum256(buf.Bytes())
 		digests = append(digests, fmt.Sprintf("(%s, %s)", q(pn), q(fmt.Sprintf("%x", sum[:8]))))
+	}
+	if len(cur.callbacks) > 0 {
+		// the list-query handlers around the translated callbacks: a digest of each handler with the callback bodies
+		// blanked (which store and page request go to FilteredPaginate, what happens to the result)
+		sb.WriteString("Definition " + cur.name + "_list_query_skeletons : list (string * string) :=\n  [" + strings.Join(skeletons, ";\n   ") + "].\n")
 	}
 	sb.WriteString("Definition " + cur.name + "_primitive_bodies : list (string * string) :=\n  [" + strings.Join(digests, ";\n   ") + "].\n")
 	os.WriteFile(keeperOut, []byte(sb.String()), 0o644)
@@ -2383,4 +2390,30 @@ func callbackDecl(fd *ast.FuncDecl) (*ast.FuncDecl, string) {
 		Type: &ast.FuncType{Params: &ast.FieldList{List: params}, Results: &ast.FieldList{List: results}},
 		Body: &ast.BlockStmt{List: rest},
 	}, ""
+}
+
+// skeletonDigest: digest of a function with the bodies of its function literals blanked (comments stripped)
+func skeletonDigest(fd *ast.FuncDecl) string {
+	var lits []*ast.FuncLit
+	var saved []*ast.BlockStmt
+	ast.Inspect(fd.Body, func(n ast.Node) bool {
+		if fl, ok := n.(*ast.FuncLit); ok {
+			lits = append(lits, fl)
+			saved = append(saved, fl.Body)
+			return false
+		}
+		return true
+	})
+	for _, fl := range lits {
+		fl.Body = &ast.BlockStmt{}
+	}
+	cp := *fd
+	cp.Doc = nil
+	var buf bytes.Buffer
+	printer.Fprint(&buf, token.NewFileSet(), &cp)
+	for i, fl := range lits {
+		fl.Body = saved[i]
+	}
+	sum := sha256.Sum256(buf.Bytes())
+	return fmt.Sprintf("%x", sum[:8])
 }
